@@ -403,3 +403,357 @@ void h_tbl_resize(void) {
   CHECK(X.frees == (old_list != NULL ? 1 : 0) && (old_list == NULL || X.freed[0] == (void *)old_list), "lru_table_resize: the old bucket array is freed exactly once, no handle is freed");
   CANARY();
 }
+
+/* ###################################################################### shard level
+ *
+ * Representation invariant (check_rep):
+ *   - hash chains and the two circular lists are well formed and contain only live handles the harness knows
+ *   - a handle with in_cache == 1 is in the hash table exactly once (in the bucket of its hash) and on exactly one
+ *     list: the LRU list iff refs == 1, the in-use list iff refs >= 2
+ *   - a handle with in_cache == 0 is in neither and has refs >= 1 (a client still holds it)
+ *   - table.elems == number of in_cache handles; usage == sum of their charges
+ */
+static lru_shard_t g_shard;
+#define SH (&g_shard)
+#define I_NEW (LRU_N)          /* G[] index of the handle created by an insert */
+#define I_DET (LRU_N + 1)      /* G[] index of a handle erased from the cache but still held by a client */
+
+static struct lst_scan { int cnt[2][LRU_M]; int pos[2][LRU_M]; int len[2]; int bad[2]; } L;
+
+#pragma CPROVER check push
+#pragma CPROVER check disable "pointer"
+#pragma CPROVER check disable "pointer-primitive"
+#pragma CPROVER check disable "pointer-overflow"
+#pragma CPROVER check disable "bounds"
+static void lst_scan(const lru_handle_t *head, int w) {
+  const lru_handle_t *p = head, *q; int s, i, closed = 0;
+  for (i = 0; i < LRU_M; i++) { L.cnt[w][i] = 0; L.pos[w][i] = -1; }
+  L.len[w] = 0; L.bad[w] = 0;
+  for (s = 0; s < LRU_M + 1; s++) if (!closed && !L.bad[w]) {
+    q = p->next;
+    if (q == head) { if (q->prev != p) L.bad[w] = 1; closed = 1; }
+    else {
+      i = idx_of(q);
+      if (i < 0 || was_freed(q) || q->prev != p) L.bad[w] = 1;
+      else { L.cnt[w][i]++; L.pos[w][i] = s; L.len[w]++; p = q; }
+    }
+  }
+  if (!closed) L.bad[w] = 1;
+}
+#pragma CPROVER check pop
+
+static void check_rep(void) {
+  int i, ncache = 0, ok_c = 1, ok_d = 1; size_t sum = 0;
+  tbl_scan(&SH->table); lst_scan(&SH->list, 0); lst_scan(&SH->in_use, 1);
+  CHECK(!T.bad, "rep: hash chains are NULL terminated and hold only live handles");
+  CHECK(!L.bad[0] && !L.bad[1], "rep: LRU list and in-use list are circular, prev/next consistent, and hold only live handles");
+  for (i = 0; i < LRU_M; i++) if (G[i] != NULL && !was_freed(G[i])) {
+    const lru_handle_t *h = G[i];
+    if (h->in_cache) {
+      ncache++; sum += h->charge;
+      if (!(T.cnt[i] == 1 && T.bkt[i] == (h->hash & (SH->table.length - 1)))) ok_c = 0;
+      if (h->refs == 1) { if (!(L.cnt[0][i] == 1 && L.cnt[1][i] == 0)) ok_c = 0; }
+      else if (!(h->refs >= 2 && L.cnt[1][i] == 1 && L.cnt[0][i] == 0)) ok_c = 0;
+    } else if (!(T.cnt[i] == 0 && L.cnt[0][i] == 0 && L.cnt[1][i] == 0 && h->refs >= 1)) ok_d = 0;
+  }
+  CHECK(ok_c, "rep: every in_cache handle is in the hash table exactly once (bucket of its hash) and on exactly one list: LRU iff refs == 1, in-use iff refs >= 2");
+  CHECK(ok_d, "rep: a handle that is not in_cache is in neither the table nor a list and is still referenced");
+  CHECK(SH->table.elems == (uint32_t)ncache && T.total == ncache && L.len[0] + L.len[1] == ncache, "rep: table and lists hold exactly the in_cache handles");
+  CHECK(SH->usage == sum, "rep: usage == sum of the charges of the in_cache handles");
+  CHECK(is_pow2(SH->table.length) && SH->table.elems <= SH->table.length, "rep: table length is a power of two >= elems");
+}
+
+/* handle j is exactly as it was */
+static int unchanged(int j) {
+  const lru_handle_t *h = G[j];
+  if (was_freed(h)) return 0;
+  return h->refs == S[j].refs && h->in_cache == S[j].in_cache && h->charge == S[j].charge && h->hash == S[j].hash &&
+         h->key_length == S[j].klen && h->value == S[j].value && h->deleter == model_deleter && bytes_eq(h->key_data, S[j].key, S[j].klen);
+}
+/* handle j went through unref-to-zero: deleter called exactly once with its key and value, then freed exactly once */
+static int destroyed(int j) {
+  int c, n = 0, keyok = 0;
+  for (c = 0; c < LRU_M + 2; c++) if (c < X.dels && X.del_value[c] == S[j].value) {
+    n++; keyok = (X.del_klen[c] == S[j].klen && bytes_eq(X.del_key[c], S[j].key, S[j].klen));
+  }
+  return was_freed(G[j]) == 1 && n == 1 && keyok;
+}
+static int not_destroyed(int j) {
+  int c, n = 0;
+  for (c = 0; c < LRU_M + 2; c++) if (c < X.dels && X.del_value[c] == S[j].value) n++;
+  return was_freed(G[j]) == 0 && n == 0;
+}
+/* handle j was taken out of the cache (lru_shard_finish): destroyed if the cache held the only reference,
+ * otherwise detached with one reference less */
+static int finished(int j) {
+  if (S[j].refs == 1) return destroyed(j);
+  return not_destroyed(j) && G[j]->in_cache == 0 && G[j]->refs == S[j].refs - 1 && G[j]->value == S[j].value && G[j]->key_length == S[j].klen;
+}
+static int mutex_ok(void) {
+  return X.locks == 1 && X.unlocks == 1 && X.last == &SH->mutex && X.held == NULL && !X.lock_err && !X.guard_err;
+}
+
+static void lru_shard_append_model(lru_handle_t *head, lru_handle_t *e) {   /* builder's own list insertion (newest = head->prev) */
+  lru_handle_t *last = head->prev;
+  last->next = e; e->prev = last; e->next = head; head->prev = e;
+}
+static const uint8_t PERM3[6][3] = {{0,1,2},{0,2,1},{1,0,2},{1,2,0},{2,0,1},{2,1,0}};
+
+/* pre-state: in_n cached handles (table + lists + usage consistent), optionally one detached handle */
+static void build_shard(int n, int detached) {
+  int i, j, p = nondet_int();
+  __CPROVER_assume(p >= 0 && p < 6);
+  build_table(&SH->table, LRU_LEN, n, LRU_K, 1);
+  SH->capacity = nondet_size(); SH->usage = 0;
+  SH->list.next = SH->list.prev = &SH->list;
+  SH->in_use.next = SH->in_use.prev = &SH->in_use;
+  for (i = 0; i < LRU_N; i++) if (i < n) {
+    G[i]->refs = nondet_u32();
+    __CPROVER_assume(G[i]->refs >= 1 && G[i]->refs < 0x80000000u);
+    __CPROVER_assume(G[i]->charge < ((size_t)1 << 60));
+    SH->usage += G[i]->charge;
+  }
+  /* list order: an arbitrary permutation of the handles (LRU order is independent of hash chain order) */
+  for (j = 0; j < 3; j++) {
+#if LRU_N == 3 && !defined(LRU_NOPERM)
+    i = PERM3[p][j];
+#else
+    i = j;
+#endif
+    if (i < n && i < LRU_N) lru_shard_append_model(G[i]->refs == 1 ? &SH->list : &SH->in_use, G[i]);
+  }
+  lst_scan(&SH->list, 0);
+  for (i = 0; i < LRU_N; i++) if (i < n) { snap(i); S[i].lru_pos = L.pos[0][i]; }
+  if (detached) {
+    lru_handle_t *d = mk_handle(LRU_K);
+    d->in_cache = 0; d->refs = nondet_u32(); d->value = &g_val[I_DET];
+    __CPROVER_assume(d->refs >= 1 && d->refs < 0x80000000u);
+    G[I_DET] = d; snap(I_DET); S[I_DET].lru_pos = -1;
+  }
+  X.guard = 1;
+}
+
+/* LRU order of the handles that stay on the LRU list is preserved (ghost pair a, b) */
+static int order_kept(int a, int b) {
+  if (S[a].lru_pos < 0 || S[b].lru_pos < 0 || L.pos[0][a] < 0 || L.pos[0][b] < 0) return 1;
+  return (S[a].lru_pos < S[b].lru_pos) == (L.pos[0][a] < L.pos[0][b]) || a == b;
+}
+
+/* ============================================================== lru.lookup */
+void h_lookup(void) {
+  ldb_slice_t key; uint8_t *kd; lru_handle_t *e; int ei, in_n = pick_n(); size_t usage0;
+  IN_SIZE(in_klen); IN_U32(in_hash); IN_INT(in_k); IN_INT(in_j);
+  ASSUME(in_klen <= LRU_K);
+  build_shard(in_n, 0);
+  usage0 = SH->usage;
+  kd = mk_key(in_klen, LRU_K);
+  key.data = kd; key.size = in_klen; key.alloc = 0;
+
+  e = lru_shard_lookup(SH, &key, in_hash);
+
+  ei = idx_of(e);
+  CHECK(e == NULL || (ei >= 0 && ei < in_n), "lru_shard_lookup: NULL or a handle of this cache");
+  CHECK(e == NULL || key_is(e, in_hash, kd, in_klen), "lru_shard_lookup: a returned entry is stored under EXACTLY the key asked for");
+  CHECK(e == NULL || (e->refs == S[ei].refs + 1 && e->in_cache == 1 && e->value == S[ei].value && e->charge == S[ei].charge), "lru_shard_lookup: takes one reference on the returned entry and nothing else");
+  check_rep();
+  CHECK(SH->usage == usage0 && SH->table.elems == (uint32_t)in_n && X.frees == 0 && X.dels == 0 && X.mallocs == 0, "lru_shard_lookup: nothing evicted, freed or allocated");
+  CHECK(mutex_ok(), "lru_shard_lookup: runs under the shard mutex, released on return");
+  if (in_n > 0) {
+    ASSUME(in_k >= 0 && in_k < in_n && in_j >= 0 && in_j < in_n);
+    CHECK(!key_is(G[in_k], in_hash, kd, in_klen) || e == G[in_k], "lru_shard_lookup: a cached key is always found");
+    CHECK(G[in_k] == e || unchanged(in_k), "lru_shard_lookup: every other entry is untouched");
+    CHECK(order_kept(in_k, in_j), "lru_shard_lookup: LRU order of the remaining unreferenced entries is preserved");
+  }
+  CANARY();
+}
+
+/* ================================================================= lru.ref */
+void h_ref(void) {
+  lru_handle_t *e; int in_n = pick_n(); size_t usage0;
+  IN_INT(in_k); IN_INT(in_j); IN_INT(in_i);
+  build_shard(in_n, 1);
+  X.guard = 0;
+  usage0 = SH->usage;
+  ASSUME((in_k >= 0 && in_k < in_n) || in_k == I_DET);
+  e = G[in_k];
+
+  lru_shard_ref(SH, e);
+
+  CHECK(e->refs == S[in_k].refs + 1 && e->in_cache == S[in_k].in_cache, "lru_shard_ref: exactly one more reference");
+  check_rep();                                   /* => moved from the LRU list to the in-use list when refs went 1 -> 2 */
+  CHECK(SH->usage == usage0 && X.frees == 0 && X.dels == 0 && X.locks == 0, "lru_shard_ref: nothing else changes");
+  ASSUME((in_j >= 0 && in_j < in_n) || in_j == I_DET);
+  CHECK(in_j == in_k || unchanged(in_j), "lru_shard_ref: every other entry is untouched");
+  ASSUME(in_i >= 0 && in_i < in_n && in_j != I_DET);
+  CHECK(order_kept(in_i, in_j), "lru_shard_ref: LRU order of the remaining unreferenced entries is preserved");
+  CANARY();
+}
+
+/* ================================================= lru.release / lru.unref */
+void h_release(void) {
+  lru_handle_t *e; int in_n = pick_n(); size_t usage0;
+  IN_INT(in_k); IN_INT(in_j); IN_INT(in_i);
+  build_shard(in_n, 1);
+  usage0 = SH->usage;
+  ASSUME((in_k >= 0 && in_k < in_n) || in_k == I_DET);
+  e = G[in_k];
+  ASSUME(!e->in_cache || e->refs >= 2);           /* the caller holds a reference; the cache holds its own while in_cache */
+
+#ifdef LRU_DIRECT
+  X.guard = 0;
+  lru_shard_unref(SH, e);
+  CHECK(X.locks == 0 && X.unlocks == 0, "lru_shard_unref: does not touch the mutex");
+#else
+  lru_shard_release(SH, e);
+  CHECK(mutex_ok(), "lru_shard_release: runs under the shard mutex, released on return");
+#endif
+
+  if (S[in_k].refs == 1) {
+    CHECK(destroyed(in_k), "unref: the last reference is gone: deleter called exactly once with the entry's key and value, entry freed exactly once");
+    CHECK(X.frees == 1 && X.dels == 1, "unref: nothing else is destroyed");
+  } else {
+    CHECK(not_destroyed(in_k) && X.frees == 0 && X.dels == 0, "unref: an entry that is still referenced is neither passed to the deleter nor freed");
+    CHECK(e->refs == S[in_k].refs - 1 && e->in_cache == S[in_k].in_cache && e->value == S[in_k].value, "unref: exactly one reference less");
+    CHECK(!(e->in_cache && e->refs == 1) || SH->list.prev == e, "unref: an entry only the cache references becomes the NEWEST entry of the LRU list");
+  }
+  check_rep();
+  CHECK(SH->usage == usage0 && SH->table.elems == (uint32_t)in_n, "unref: cache content and usage unchanged");
+  ASSUME((in_j >= 0 && in_j < in_n) || in_j == I_DET);
+  CHECK(in_j == in_k || unchanged(in_j), "unref: every other entry is untouched");
+  ASSUME(in_i >= 0 && in_i < in_n && in_j != I_DET);
+  CHECK(order_kept(in_i, in_j), "unref: LRU order of the other unreferenced entries is preserved");
+  CANARY();
+}
+
+/* ============================================================== lru.finish */
+void h_finish(void) {
+  lru_handle_t *e, *r; ldb_slice_t key; int in_n = pick_n(), rc; size_t usage0;
+  IN_INT(in_k); IN_INT(in_j); IN_INT(in_i); IN_INT(in_null);
+  build_shard(in_n, 0);
+  X.guard = 0;
+  usage0 = SH->usage;
+  if (in_null || in_n == 0) {
+    rc = lru_shard_finish(SH, NULL);
+    CHECK(rc == 0, "lru_shard_finish(NULL): returns 0");
+    check_rep();
+    CHECK(SH->usage == usage0 && X.frees == 0 && X.dels == 0, "lru_shard_finish(NULL): nothing changes");
+    if (in_n > 0) { ASSUME(in_j >= 0 && in_j < in_n); CHECK(unchanged(in_j), "lru_shard_finish(NULL): no entry is touched"); }
+  } else {
+    ASSUME(in_k >= 0 && in_k < in_n);
+    e = G[in_k];
+    key.data = e->key_data; key.size = e->key_length; key.alloc = 0;
+    r = lru_table_remove(&SH->table, &key, e->hash);           /* precondition of finish: already out of the hash table */
+    CHECK(r == e, "lru_table_remove: removes the entry stored under the key");
+
+    rc = lru_shard_finish(SH, e);
+
+    CHECK(rc == 1, "lru_shard_finish: returns 1 for an entry");
+    CHECK(finished(in_k), "lru_shard_finish: the cache's reference is dropped: entry destroyed (deleter once, freed once) iff that was the last one, else in_cache = 0 and one reference less");
+    CHECK(X.frees == (S[in_k].refs == 1 ? 1 : 0) && X.dels == X.frees, "lru_shard_finish: nothing else is destroyed");
+    CHECK(SH->usage == usage0 - S[in_k].charge, "lru_shard_finish: usage decreases by exactly the entry's charge");
+    check_rep();
+    ASSUME(in_j >= 0 && in_j < in_n && in_i >= 0 && in_i < in_n);
+    CHECK(in_j == in_k || unchanged(in_j), "lru_shard_finish: every other entry is untouched");
+    CHECK(order_kept(in_i, in_j), "lru_shard_finish: LRU order of the other entries is preserved");
+  }
+  CHECK(X.locks == 0, "lru_shard_finish: does not touch the mutex");
+  CANARY();
+}
+
+/* =============================================================== lru.erase */
+void h_erase(void) {
+  ldb_slice_t key; uint8_t *kd; int in_n = pick_n(), i, hit = -1; size_t usage0;
+  IN_SIZE(in_klen); IN_U32(in_hash); IN_INT(in_j); IN_INT(in_i);
+  ASSUME(in_klen <= LRU_K);
+  build_shard(in_n, 0);
+  usage0 = SH->usage;
+  kd = mk_key(in_klen, LRU_K);
+  key.data = kd; key.size = in_klen; key.alloc = 0;
+  for (i = 0; i < LRU_N; i++) if (i < in_n && key_is(G[i], in_hash, kd, in_klen)) hit = i;
+
+  lru_shard_erase(SH, &key, in_hash);
+
+  CHECK(mutex_ok(), "lru_shard_erase: runs under the shard mutex, released on return");
+  if (hit >= 0) {
+    CHECK(finished(hit), "lru_shard_erase: the entry under the key leaves the cache: destroyed iff unreferenced, else detached with one reference less");
+    CHECK(SH->usage == usage0 - S[hit].charge && SH->table.elems == (uint32_t)in_n - 1, "lru_shard_erase: usage and element count drop by that entry");
+  } else {
+    CHECK(SH->usage == usage0 && SH->table.elems == (uint32_t)in_n, "lru_shard_erase: an absent key changes nothing");
+  }
+  CHECK(X.frees == ((hit >= 0 && S[hit].refs == 1) ? 1 : 0) && X.dels == X.frees, "lru_shard_erase: at most the erased entry is destroyed");
+  check_rep();
+  if (in_n > 0) {
+    ASSUME(in_j >= 0 && in_j < in_n && in_i >= 0 && in_i < in_n);
+    CHECK(in_j == hit || unchanged(in_j), "lru_shard_erase: every entry under a different key is untouched");
+    CHECK(order_kept(in_i, in_j), "lru_shard_erase: LRU order of the other entries is preserved");
+  }
+  CANARY();
+}
+
+/* =============================================================== lru.prune */
+void h_prune(void) {
+  int in_n = pick_n(), i, nlru = 0; size_t keep = 0;
+  IN_INT(in_j);
+  build_shard(in_n, 0);
+  for (i = 0; i < LRU_N; i++) if (i < in_n) { if (S[i].refs == 1) nlru++; else keep += S[i].charge; }
+
+  lru_shard_prune(SH);
+
+  CHECK(mutex_ok(), "lru_shard_prune: runs under the shard mutex, released on return");
+  CHECK(SH->list.next == &SH->list && SH->list.prev == &SH->list, "lru_shard_prune: the LRU list is empty afterwards");
+  CHECK(X.frees == nlru && X.dels == nlru, "lru_shard_prune: exactly the unreferenced entries are destroyed");
+  CHECK(SH->usage == keep && SH->table.elems == (uint32_t)(in_n - nlru), "lru_shard_prune: usage and element count are those of the in-use entries");
+  check_rep();
+  if (in_n > 0) {
+    ASSUME(in_j >= 0 && in_j < in_n);
+    CHECK(S[in_j].refs == 1 ? destroyed(in_j) : unchanged(in_j), "lru_shard_prune: an unreferenced entry is destroyed (deleter once with its key and value), an entry in use is untouched");
+  }
+  CANARY();
+}
+
+/* ============================================================== lru.insert */
+void h_insert(void) {
+  ldb_slice_t key; uint8_t *kd; lru_handle_t *e; int in_n = pick_n(), i, same = -1, nfreed = 0, last = -1; size_t usage0;
+  IN_SIZE(in_klen); IN_U32(in_hash); IN_SIZE(in_charge); IN_INT(in_j); IN_INT(in_i);
+  ASSUME(in_klen <= LRU_K);
+  ASSUME(in_charge < ((size_t)1 << 60));
+  build_shard(in_n, 0);
+  ASSUME(SH->capacity > 0 || in_n == 0);           /* capacity is fixed at creation: a cache of capacity 0 never holds an entry */
+  usage0 = SH->usage;
+  kd = mk_key(in_klen, LRU_K);
+  key.data = kd; key.size = in_klen; key.alloc = 0;
+  for (i = 0; i < LRU_N; i++) if (i < in_n && key_is(G[i], in_hash, kd, in_klen)) same = i;
+
+  e = lru_shard_insert(SH, &key, in_hash, &g_val[I_NEW], in_charge, model_deleter);
+
+  CHECK(mutex_ok(), "lru_shard_insert: runs under the shard mutex, released on return");
+  CHECK(e != NULL && idx_of(e) < 0 && X.mallocs >= 1 && !was_freed(e), "lru_shard_insert: returns a freshly allocated, live handle");
+  G[I_NEW] = e; snap(I_NEW); S[I_NEW].lru_pos = -1;
+  CHECK(e->value == (void *)&g_val[I_NEW] && e->deleter == model_deleter && e->charge == in_charge && e->hash == in_hash, "lru_shard_insert: the handle carries the caller's value, deleter, charge and hash");
+  CHECK(e->key_length == in_klen && bytes_eq(e->key_data, kd, in_klen), "lru_shard_insert: the handle carries a copy of the key");
+  if (SH->capacity == 0) {
+    CHECK(e->in_cache == 0 && e->refs == 1, "lru_shard_insert: capacity 0 turns caching off: the entry belongs to the caller alone");
+    CHECK(SH->usage == 0 && SH->table.elems == 0 && X.frees == 0 && X.dels == 0, "lru_shard_insert: capacity 0: the cache stays empty");
+  } else {
+    CHECK(e->in_cache == 1 && e->refs == 2, "lru_shard_insert: the new entry is cached with two references (cache + caller)");
+    CHECK(same < 0 || finished(same), "lru_shard_insert: an entry under the same key is replaced: it leaves the cache (destroyed iff unreferenced)");
+    /* termination condition of the eviction */
+    CHECK(SH->usage <= SH->capacity || SH->list.next == &SH->list, "lru_shard_insert: afterwards usage <= capacity, or nothing evictable is left");
+  }
+  check_rep();                                     /* => new entry on the in-use list and in the table; usage == sum of cached charges */
+  for (i = 0; i < LRU_N; i++) if (i < in_n && was_freed(G[i])) { nfreed++; if (i != same && (last < 0 || S[i].lru_pos > S[last].lru_pos)) last = i; }
+  CHECK(X.dels == nfreed && X.frees == nfreed + (X.mallocs == 2 ? 1 : 0), "lru_shard_insert: the deleter runs exactly once per destroyed entry; besides entries only a resized bucket array is freed");
+  if (in_n > 0) {
+    ASSUME(in_j >= 0 && in_j < in_n && in_i >= 0 && in_i < in_n);
+    if (in_j != same) {
+      CHECK(S[in_j].refs == 1 || unchanged(in_j), "lru_shard_insert: an entry in use (refs >= 2) under another key is NEVER evicted or touched");
+      CHECK(unchanged(in_j) || destroyed(in_j), "lru_shard_insert: an unreferenced entry under another key is either kept untouched or evicted (deleter once, freed once)");
+      /* LRU policy: evictions take the oldest first */
+      CHECK(!(was_freed(G[in_j]) && in_i != same && S[in_i].refs == 1 && S[in_i].lru_pos < S[in_j].lru_pos) || was_freed(G[in_i]), "lru_shard_insert: eviction goes in LRU order (everything older than an evicted entry is evicted too)");
+    }
+    CHECK(order_kept(in_i, in_j), "lru_shard_insert: LRU order of the surviving entries is preserved");
+    /* no needless eviction: before the youngest evicted entry went, usage still exceeded the capacity */
+    CHECK(last < 0 || SH->usage + S[last].charge > SH->capacity, "lru_shard_insert: evicts only while usage exceeds capacity");
+  }
+  CANARY();
+}
